@@ -36,6 +36,7 @@ func runC12(c *core.Ctx, r *core.Reporter) {
 	c12initform(c, r)
 	c12unbound(c, r)
 	c12slotkey(c, r)
+	c12nilvalue(c, r)
 	// "typep, class-of and method applicability all use that same precedence list": nil
 	c10nilprec(c, r, "C12.nilprec")
 }
